@@ -184,7 +184,17 @@ def run(ctx):
     order_ok = True
     table = {}
     why_c, why_e = [], []
+    def norm(t):
+        # the vector of a ring reached through one variant (`Outer(points) => points`) is the ring's vector whichever the variant
+        if isinstance(t, tuple):
+            if len(t) == 2 and t[0] == SELF and isinstance(t[1], tuple) and len(t[1]) >= 2 and isinstance(t[1][0], tuple) and \
+                    t[1][0] and t[1][0][0] == 'v' and t[1][1] == ('f', '0'):
+                return (SELF, (('vp', '0'),) + tuple(norm(x) for x in t[1][2:]))
+            return tuple(norm(x) for x in t)
+        return t
+
     for p in ps:
+        p.eff = [norm(e) if e[0] in ('push', 'mutate', 'store') else e for e in p.eff]
         closed = None
         for t, v in p.cons:
             if t[0] == 'app' and re.sub(r'::<[^<>]*>', '', t[1]) in closed_defs:
